@@ -650,4 +650,90 @@ theorem replaceRecords_splice (recs old new : List Rec) :
   rw [replaceRecordsGo_eq]
   exact replGo_splice (fun r => old.contains r) new recs
 
+/-! ### completeness of the record split -/
+
+theorem blank_ne_dollar (c : Char) (h : isBlank c = true) : (c == '$') = false := by
+  simp only [isBlank, Bool.or_eq_true, beq_iff_eq] at h
+  rcases h with rfl | rfl <;> decide
+
+/-- A run of blanks followed by `$` at a line start is a separator. -/
+theorem splitGo_blank_run (b : Str) : ∀ (b0 v : Str), b.all isBlank = true →
+    splitGo (some b0) (b ++ '$' :: v) =
+      ([], (b0 ++ b ++ ['$']) :: (splitGo none v).1 :: (splitGo none v).2) := by
+  induction b with
+  | nil => intro b0 v _; simp [splitGo]
+  | cons c cs ih =>
+    intro b0 v hb
+    simp only [List.all_cons, Bool.and_eq_true] at hb
+    have h1 := blank_ne_dollar c hb.1
+    simp only [List.cons_append, splitGo, h1, hb.1, Bool.false_eq_true, ↓reduceIte]
+    rw [ih (b0 ++ [c]) v hb.2]
+    simp
+
+/-- Pieces of the scanner as one list. -/
+def pieces (pend : Option Str) (l : Str) : List Str := (splitGo pend l).1 :: (splitGo pend l).2
+
+theorem pieces_complete (u0 : Str) : ∀ (pend : Option Str) (b v : Str), b.all isBlank = true →
+    ∃ before after, pieces pend (u0 ++ '\n' :: (b ++ '$' :: v)) = before ++ (b ++ ['$']) :: after ∧
+      before.length % 2 = 1 ∧ before.flatten = pend.getD [] ++ u0 ++ ['\n'] := by
+  induction u0 with
+  | nil =>
+    intro pend b v hb
+    have hA := splitGo_blank_run b [] v hb
+    cases pend with
+    | none =>
+      refine ⟨[['\n']], (splitGo none v).1 :: (splitGo none v).2, ?_, rfl, by simp⟩
+      simp [pieces, splitGo, hA]
+    | some b0 =>
+      refine ⟨[b0 ++ ['\n']], (splitGo none v).1 :: (splitGo none v).2, ?_, rfl, by simp⟩
+      have h1 : ('\n' == '$') = false := by decide
+      have h2 : isBlank '\n' = false := by decide
+      simp [pieces, splitGo, hA, h1, h2]
+  | cons c u ih =>
+    intro pend b v hb
+    cases pend with
+    | none =>
+      by_cases hc : (c == '\n') = true
+      · obtain ⟨before, after, hp, hlen, hfl⟩ := ih (some []) b v hb
+        cases before with
+        | nil => simp at hlen
+        | cons p ps =>
+          simp only [pieces, List.cons_append, List.cons.injEq] at hp
+          refine ⟨(c :: p) :: ps, after, ?_, by simpa using hlen, by simpa using hfl⟩
+          simp [pieces, splitGo, hc, hp.1, hp.2]
+      · obtain ⟨before, after, hp, hlen, hfl⟩ := ih none b v hb
+        cases before with
+        | nil => simp at hlen
+        | cons p ps =>
+          simp only [pieces, List.cons_append, List.cons.injEq] at hp
+          refine ⟨(c :: p) :: ps, after, ?_, by simpa using hlen, by simpa using hfl⟩
+          simp [pieces, splitGo, hc, hp.1, hp.2]
+    | some b0 =>
+      by_cases h1 : (c == '$') = true
+      · obtain ⟨before, after, hp, hlen, hfl⟩ := ih none b v hb
+        have hc : c = '$' := by simpa using h1
+        refine ⟨[] :: (b0 ++ ['$']) :: before, after, ?_, by simp; omega, by simp [hfl, hc]⟩
+        simp only [pieces] at hp
+        simp [pieces, splitGo, h1, hp]
+      · by_cases h2 : isBlank c = true
+        · obtain ⟨before, after, hp, hlen, hfl⟩ := ih (some (b0 ++ [c])) b v hb
+          refine ⟨before, after, ?_, hlen, by simpa using hfl⟩
+          simp only [pieces] at hp
+          simp [pieces, splitGo, h1, h2, hp]
+        · by_cases h3 : (c == '\n') = true
+          · obtain ⟨before, after, hp, hlen, hfl⟩ := ih (some []) b v hb
+            cases before with
+            | nil => simp at hlen
+            | cons p ps =>
+              simp only [pieces, List.cons_append, List.cons.injEq] at hp
+              refine ⟨(b0 ++ c :: p) :: ps, after, ?_, by simpa using hlen, by simpa using hfl⟩
+              simp [pieces, splitGo, h1, h2, h3, hp.1, hp.2]
+          · obtain ⟨before, after, hp, hlen, hfl⟩ := ih none b v hb
+            cases before with
+            | nil => simp at hlen
+            | cons p ps =>
+              simp only [pieces, List.cons_append, List.cons.injEq] at hp
+              refine ⟨(b0 ++ c :: p) :: ps, after, ?_, by simpa using hlen, by simpa using hfl⟩
+              simp [pieces, splitGo, h1, h2, h3, hp.1, hp.2]
+
 end Pharmpy.C03
